@@ -267,6 +267,29 @@ Print Assumptions merge_unfixed_drops_first_layer_refuted.
 Print Assumptions relative_receiver_unfixed_refuted.
 Print Assumptions merge_gradient_unfixed_refuted.
 
+(* ---- histories on one Model object ------------------------------------------
+   In-place writes to the property arrays (through the arrays the getters
+   return, or the setters) interleaved with extract_1d requests for a fixed
+   selection [ex]: the answer of every request is the extraction of the arrays
+   as they are at that moment -- whatever was extracted or written before.
+   (The model keeps no store; the tie runs such histories on ONE emg3d Model /
+   Simulation object and compares with the model on the current arrays.) *)
+Section Histories.
+  Context {F : Type} {O : FOps F}.
+  Variable ex : list (Z -> Z -> Z -> F) -> xerr + @ext F.
+  Theorem extract_after_history_is_fresh (ops1 : list (@hop F)) props ops2 :
+    nth_error (run_hist ex props (ops1 ++ HExtract :: ops2))
+              (List.length (filter is_extract ops1))
+    = Some (ex (fold_left edit_props ops1 props)).
+  Proof. exact (run_hist_fresh ex ops1 props ops2). Qed.
+End Histories.
+Print Assumptions extract_after_history_is_fresh.
+(* extract, write 3 into layer 1 of the column in place, extract again *)
+Example history_runs :
+  ex_hist = [[[(-1 # 1)%Q; (1 # 2)%Q]]; [[(-1 # 1)%Q; (3 # 1)%Q]]].
+Proof. exact ex_hist_value. Qed.
+Print Assumptions history_runs.
+
 (* ---- non-vacuity ----------------------------------------------------------- *)
 (* the hypotheses of the sections Weights / GradientSum hold for a 2 x 3 x 2 grid *)
 Example weights_hypotheses_satisfiable :
